@@ -135,7 +135,10 @@ class DB:
         self.state.flush_count = self.history.open_db(self.db_class, for_sync,
                                                       self.state.flush_count,
                                                       compacting)
-        self.clear_excess_undo_info()
+        # The history compaction tool is run with its own environment ("just DB_DIRECTORY
+        # and COIN"); its REORG_LIMIT must not decide which undo information the server keeps
+        if not compacting:
+            self.clear_excess_undo_info()
 
         # Read TX counts (requires meta directory)
         await self._read_tx_counts()
